@@ -297,8 +297,85 @@ ID_ATOMS = ["", ".", "..", "...", "a", "cfg", "cfgA", "cfgB", "cfg-evil", "-evil
             "日", "\U0001F600", "etc", "passwd", "..\\", "../", "/..", "./", "a/b", "cfgs", "cfgs-evil"]
 
 
+# directories OUTSIDE the root whose path extends the root's path string (the shape the
+# character-wise commonprefix test cannot tell from a child), plus ordinary outside places and
+# a few inside ones; created on disk with a stub config.yml
+SIBLINGS = ["_private/secret", "-evil", "-evil/x", "X/inner", ".bak", "2"]
+TARGETS_REL = (["../cfgs" + s for s in SIBLINGS]
+               + ["../other/secret", "..", "../..", "cfgA/../../cfgs_private/secret", "./../cfgs-evil",
+                  "..\\cfgs-evil", "cfgA", "cfg A", "./cfgA", "cfgA/sub"])
+TARGETS_ABS = (["{ROOT}" + s for s in SIBLINGS]
+               + ["{ROOT}/../cfgs_private/secret", "/{ROOT}-evil", "/etc/passwd", "/tmp/verif_c20/srv/other/secret",
+                  "{ROOT}/cfgA", "{ROOT}"])
+ENC_LITERALS = ["%c0%ae%c0%ae%c0%afcfgs-evil", "%u002e%u002e%u2215cfgs-evil", "&#46;&#46;&#47;cfgs-evil",
+                "\\u002e\\u002e\\u002fcfgs-evil", "%252e%252e%252fcfgs_private%252fsecret", "..%00/cfgs-evil",
+                "%2e%2e%2f", "%2e%2e", "%2f", "%2E%2E%5Ccfgs-evil", "%%32%65%%32%65%%32%66cfgs-evil"]
+
+
+def _pct(ch, rng, case):
+    out = ""
+    for b in ch.encode("utf-8"):
+        h = "%02x" % b
+        if case == "upper":
+            h = h.upper()
+        elif case == "mixed":
+            h = "".join(c.upper() if rng.random() < 0.5 else c for c in h)
+        out += "%" + h
+    return out
+
+
+def encode_layers(rng, p):
+    """p written through the encodings a server could conceivably undo before using the id"""
+    from urllib.parse import quote
+    case = rng.choice(["lower", "lower", "upper", "mixed"])
+    k = rng.randrange(11)
+    if k == 0:      # reserved characters only ('/' '\\' ' ' ...), dots stay
+        s = "".join(_pct(c, rng, case) if not (c.isalnum() or c in "._-~") else c for c in p)
+    elif k == 1:    # reserved characters and dots
+        s = "".join(_pct(c, rng, case) if not (c.isalnum() or c in "_-~") else c for c in p)
+    elif k == 2:    # every character
+        s = "".join(_pct(c, rng, case) for c in p)
+    elif k == 3:    # only the separators
+        s = "".join(_pct(c, rng, case) if c in "/\\" else c for c in p)
+    elif k == 4:    # only the dots
+        s = "".join(_pct(c, rng, case) if c == "." else c for c in p)
+    elif k == 5:    # double encoding
+        s = quote(quote(p, safe=""), safe="").replace(".", "%252e")
+    elif k == 6:    # '/' written as an encoded backslash
+        s = "".join(_pct("\\", rng, case) if c == "/" else _pct(c, rng, case) if c == "." else c for c in p)
+    elif k == 7:    # a random subset of the characters
+        s = "".join(_pct(c, rng, case) if rng.random() < 0.5 else c for c in p)
+    elif k == 8:    # form encoding: '+' for space, rest reserved-encoded
+        s = "".join("+" if c == " " else _pct(c, rng, case) if not (c.isalnum() or c in "_-~") else c for c in p)
+    elif k == 9:    # everything but letters/digits, then encoded once more in part
+        s = "".join(_pct(c, rng, case) if not c.isalnum() else c for c in p)
+        s = "".join("%25" if c == "%" and rng.random() < 0.3 else c for c in s)
+    else:
+        s = p
+    return s
+
+
+def gen_encoded_id(rng):
+    if rng.random() < 0.08:
+        return rng.choice(ENC_LITERALS)
+    p = rng.choice(TARGETS_REL) if rng.random() < 0.55 else rng.choice(TARGETS_ABS).replace("{ROOT}", ROOT)
+    return encode_layers(rng, p)
+
+
+def make_dirs():
+    for d in [ROOT + "/cfgA", ROOT + "/cfgB", ROOT + "/cfg A", TMP + "/srv/other/secret"] + [ROOT + s for s in SIBLINGS]:
+        os.makedirs(d, exist_ok=True)
+        f = os.path.join(d, "config.yml")
+        if not os.path.exists(f):
+            with open(f, "w") as fh:
+                fh.write('models: []\n')
+
+
 def gen_id(rng):
     """config id template; {ROOT} is replaced by the absolute root at run time"""
+    r = rng.random()
+    if r < 0.17:
+        return gen_encoded_id(rng)
     r = rng.random()
     if r < 0.12:
         return rng.choice(["cfgA", "cfgB", "cfg", "a", "cfgA-cfgB"])
@@ -507,8 +584,7 @@ def run(tier, seed, replay=None):
     sources = consts["reject_sources"] if consts else [r"[\\/]|(\.\.)"]
     out.coverage["translated_constants"] = {k: v for k, v in (consts or {}).items() if k != "reject_pattern"}
 
-    os.makedirs(ROOT, exist_ok=True)
-    os.makedirs(ROOT + "-evil", exist_ok=True)
+    make_dirs()
     cwd = os.getcwd()
     rel = os.path.relpath(ROOT, cwd)
     impl = Impl(pfx, sfx)
@@ -618,6 +694,7 @@ def run(tier, seed, replay=None):
         rcases.append({"kind": "rails", "root": root_t, "single": single, "ids": ids})
     rterms, rkept = [], []
     rails_findings = 0
+    rails_found = []
     for c in rcases:
         root = subst(c["root"], rel)
         ids = [subst(x, rel) for x in c["ids"]]
@@ -632,14 +709,12 @@ def run(tier, seed, replay=None):
         for p in trace:
             if not inside_root(root_abs, p):
                 rails_findings += 1
-                out.findings.append(C.Finding(
-                    "load-outside-root", f"_get_rails({ids!r}) called RailsConfig.from_path({p!r}) outside the root {root_abs!r}",
-                    {**c, "observed_loads": trace}))
+                rails_found.append(("load-outside-root", f"_get_rails({ids!r}) called RailsConfig.from_path({p!r}) outside the root {root_abs!r}",
+                                    {**c, "observed_loads": trace}))
         if status == "ok" and not c.get("single") and any(resolves_outside(root_abs, x) for x in ids):
             rails_findings += 1
-            out.findings.append(C.Finding(
-                "outside-id-not-rejected", f"_get_rails({ids!r}) succeeded although an id names a directory outside {root_abs!r}",
-                {**c, "observed_loads": trace}))
+            rails_found.append(("outside-id-not-rejected", f"_get_rails({ids!r}) succeeded although an id names a directory outside {root_abs!r}",
+                                {**c, "observed_loads": trace}))
         if status.startswith("exc:"):
             out.findings.append(C.Finding("get-rails-unexpected-exception", f"_get_rails({ids!r}) raised {status[4:]}", c))
             continue
@@ -649,6 +724,14 @@ def run(tier, seed, replay=None):
             inst=copt(cl([cs(p) for p in inst])) if inst is not None else "None")
         rterms.append(t)
         rkept.append((c, status, trace))
+    # smallest failing input per signature becomes the replay
+    best = {}
+    for sig, text, payload in rails_found:
+        size = (len(payload["ids"]), sum(len(x) for x in payload["ids"]), len(payload["root"]))
+        if sig not in best or size < best[sig][0]:
+            best[sig] = (size, text, payload)
+    for sig, (_, text, payload) in best.items():
+        out.findings.append(C.Finding(sig, text, payload))
     if okm and rterms:
         bools, err = C.run_cases(PID + "_rails", PREAMBLE, rterms, "check_rails", shard=200)
         if err:
